@@ -53,7 +53,7 @@ Proof.
   vm_compute. intro H; discriminate H.
 Qed.
 
-Global Opaque rnd32 first_root poly_max poly_min irange.
+Local Opaque rnd32 first_root poly_max poly_min irange.
 
 (** ---------------------------------------------------------------- *)
 (** * Boolean comparisons on Q                                        *)
@@ -295,16 +295,16 @@ Lemma Q2R_Qred' : forall q, Q2R (Qred q) = Q2R q.
 Proof. intro q. apply Qeq_eqR. apply Qred_correct. Qed.
 
 Lemma Q2R_0' : Q2R 0 = 0.
-Proof. unfold Q2R; simpl; lra. Qed.
+Proof. exact RMicromega.Q2R_0. Qed.
 Lemma Q2R_1' : Q2R 1 = 1.
-Proof. unfold Q2R; simpl; lra. Qed.
+Proof. exact RMicromega.Q2R_1. Qed.
 
 (** [shift_poly cs y] is p - y *)
 Lemma shift_poly_reval : forall cs y u, reval (shift_poly cs y) u = reval cs u - Q2R y.
 Proof.
   intros cs y u. unfold reval. destruct cs as [|c r]; cbn [shift_poly map horner ROps add mul zero].
-  - rewrite Q2R_Qred', Q2R_opp. lra.
-  - rewrite Q2R_Qred', Q2R_minus. lra.
+  - rewrite Q2R_Qred', Q2R_opp. Lra.lra.
+  - rewrite Q2R_Qred', Q2R_minus. Lra.lra.
 Qed.
 
 (** ---------------------------------------------------------------- *)
@@ -336,7 +336,7 @@ Section WithFirstRoot.
       + assert (Hs : forall u, 0 <= u <= 1 -> reval (zpoly s) u <> Q2R target).
         { intros u Hu Heq. apply (Hfr u).
           - rewrite Q2R_0', Q2R_1'. exact Hu.
-          - rewrite shift_poly_reval, Heq. lra. }
+          - rewrite shift_poly_reval, Heq. Lra.lra. }
         destruct (scan_takeoff rest target) as [|st du a b dg].
         * intros c' s' [Heq|Hin].
           -- inversion Heq; subst c' s'. exact Hs.
@@ -356,7 +356,7 @@ Section WithFirstRoot.
         split; [|split; [exact H0a|split; [exact Hab|exact Hb1]]].
         intros u Hu Heq. apply (Hno u).
         * rewrite Q2R_0'. exact Hu.
-        * rewrite shift_poly_reval, Heq. lra.
+        * rewrite shift_poly_reval, Heq. Lra.lra.
   Qed.
 End WithFirstRoot.
 
@@ -366,22 +366,22 @@ End WithFirstRoot.
 
 Lemma Qmin'_le_l : forall a b, Q2R (Qmin' a b) <= Q2R a.
 Proof.
-  intros a b. unfold Qmin'. destruct (Qle_bool a b) eqn:E; [lra|].
+  intros a b. unfold Qmin'. destruct (Qle_bool a b) eqn:E; [Lra.lra|].
   apply Qle_bool_false in E. apply Qlt_le_weak in E. apply Qle_Rle. exact E.
 Qed.
 Lemma Qmin'_le_r : forall a b, Q2R (Qmin' a b) <= Q2R b.
 Proof.
-  intros a b. unfold Qmin'. destruct (Qle_bool a b) eqn:E; [|lra].
+  intros a b. unfold Qmin'. destruct (Qle_bool a b) eqn:E; [|Lra.lra].
   apply Qle_bool_true in E. apply Qle_Rle. exact E.
 Qed.
 Lemma Qmax'_ge_l : forall a b, Q2R a <= Q2R (Qmax' a b).
 Proof.
-  intros a b. unfold Qmax'. destruct (Qle_bool a b) eqn:E; [|lra].
+  intros a b. unfold Qmax'. destruct (Qle_bool a b) eqn:E; [|Lra.lra].
   apply Qle_bool_true in E. apply Qle_Rle. exact E.
 Qed.
 Lemma Qmax'_ge_r : forall a b, Q2R b <= Q2R (Qmax' a b).
 Proof.
-  intros a b. unfold Qmax'. destruct (Qle_bool a b) eqn:E; [lra|].
+  intros a b. unfold Qmax'. destruct (Qle_bool a b) eqn:E; [Lra.lra|].
   apply Qle_bool_false in E. apply Qlt_le_weak in E. apply Qle_Rle. exact E.
 Qed.
 Lemma Qmin'_cases : forall a b, Qmin' a b = a \/ Qmin' a b = b.
@@ -443,9 +443,9 @@ Section WithExtrema.
         split; [|split].
         * intros c' s' u [Heq|Hin] Hu.
           -- inversion Heq; subst c' s'. specialize (Hs_bd u Hu).
-             pose proof (Qmin'_le_l al cl). pose proof (Qmax'_ge_l bu du). lra.
+             pose proof (Qmin'_le_l al cl). pose proof (Qmax'_ge_l bu du). Lra.lra.
           -- specialize (Hr_bd c' s' u Hin Hu).
-             pose proof (Qmin'_le_r al cl). pose proof (Qmax'_ge_r bu du). lra.
+             pose proof (Qmin'_le_r al cl). pose proof (Qmax'_ge_r bu du). Lra.lra.
         * destruct (Qmin'_cases au cu) as [E|E]; rewrite E.
           -- exists c, s, xmin. split; [left; reflexivity|]. repeat split; assumption.
           -- exists c1, s1, x1. split; [right; exact Hin1|]. repeat split; assumption.
